@@ -207,9 +207,14 @@ class Check:
         self.known = [k for k in kf.get("open", []) if k["property"] == pid]
 
     # -- proof obligations
-    def proofs(self):
+    def proofs(self, extra_targets=()):
         hits = forbidden_grep()
         props = coq_props(self.pid)
+        if extra_targets:
+            ok, log = coq_build(list(extra_targets))
+            if not ok:
+                props["ok"] = False
+                props["log"] = log
         obligations = len(props["theorems"])
         discharged = len([t for t in props["theorems"] if t in props["assumptions"]]) if props["ok"] else 0
         axioms = sorted({a for a in props["assumptions"].values() if a != "Closed under the global context"})
